@@ -167,6 +167,7 @@ pub struct Agg {
     pub nontrivial: HashSet<u64>,
     pub labels: BTreeMap<&'static str, u64>,
     pub subjects: BTreeMap<&'static str, u64>,
+    pub nontrivial_by_subject: BTreeMap<&'static str, u64>,
     pub samples: Vec<Value>,
     pub known_hits: BTreeMap<String, u64>,
     pub other_hits: BTreeMap<String, u64>,
@@ -339,8 +340,11 @@ pub fn run_e1(prop: u32, seed: u64, total_cases: u64, threads: usize, alloc_on: 
                     let nt = nontrivial(prop, &case, &r);
                     if nt {
                         let d = case.digest();
-                        if agg.nontrivial.insert(d) && agg.samples.len() < 2 && case.ops.len() <= 30 {
-                            agg.samples.push(sample_json(&case, &r));
+                        if agg.nontrivial.insert(d) {
+                            *agg.nontrivial_by_subject.entry(case.subj.name()).or_insert(0) += 1;
+                            if agg.samples.len() < 2 && case.ops.len() <= 30 {
+                                agg.samples.push(sample_json(&case, &r));
+                            }
                         }
                     }
                     match classify(prop, &r, &known, Some(agg)) {
@@ -389,6 +393,9 @@ fn merge(a: &mut Agg, b: Agg) {
     }
     for (k, v) in b.subjects {
         *a.subjects.entry(k).or_insert(0) += v;
+    }
+    for (k, v) in b.nontrivial_by_subject {
+        *a.nontrivial_by_subject.entry(k).or_insert(0) += v;
     }
     for s in b.samples {
         if a.samples.len() < 6 {
